@@ -38,7 +38,7 @@ func init() {
 	for _, n := range simhook.ProbeNames {
 		pn = append(pn, n)
 	}
-	pn = append(pn, "same-type-first-used-by-2+-tasks", "type-nested-in-another-tasks-type", "recursive-type", "map-field-type(proto structPool)", "anymap-of-fresh-types", "ops", "typeof-identity-checked", "result-stability-checked", "steady-state-rechecked")
+	pn = append(pn, "same-type-first-used-by-2+-tasks", "type-nested-in-another-tasks-type", "recursive-type", "map-field-type(proto structPool)", "anymap-of-fresh-types", "ops", "typeof-identity-checked", "result-stability-checked", "steady-state-rechecked", "corrupted-input-ops", "case-changed-keys")
 	core.Register(&core.Property{
 		ID: "C09", Level: "exploration", Engine: "sched", Race: true, Sched: true,
 		Quick: 60000, Thorough: 3000000,
@@ -97,6 +97,8 @@ type c09Op struct {
 	input   []byte
 	compact bool
 	flags   json.AppendFlags
+	pflags  json.ParseFlags
+	corrupt bool
 }
 
 type c09Res struct {
@@ -128,6 +130,9 @@ func (op *c09Op) String() string {
 	}
 	if op.input != nil {
 		s += fmt.Sprintf(" in=%dB", len(op.input))
+	}
+	if op.corrupt {
+		s += " (corrupted)"
 	}
 	return s
 }
@@ -172,7 +177,7 @@ func (op *c09Op) exec() (res c09Res) {
 		res.val, res.err = x.Interface(), errStr(err)
 	case opJSONParse:
 		x := reflect.New(op.ty.rt)
-		rem, err := json.Parse(op.input, x.Interface(), 0)
+		rem, err := json.Parse(op.input, x.Interface(), op.pflags)
 		res.val, res.err, res.n = x.Interface(), errStr(err), len(rem)
 	case opJSONDecoder:
 		x := reflect.New(op.ty.rt)
@@ -289,7 +294,7 @@ func sameRes(a, b *c09Res) (bool, string) {
 	if !bytes.Equal(a.snap, b.snap) {
 		return false, fmt.Sprintf("bytes %q vs alone %q", clip(a.snap, 160), clip(b.snap, 160))
 	}
-	if !reflect.DeepEqual(a.val, b.val) {
+	if !sameValue(a.val, b.val) {
 		return false, fmt.Sprintf("decoded value %s vs alone %s", show(a.val), show(b.val))
 	}
 	return true, ""
@@ -359,6 +364,13 @@ func c09MakeOp(t *tape.Tape, ty *simType, pool []*simType) *c09Op {
 			if err != nil {
 				b = []byte(`{"unencodable":true}`)
 			}
+			if t.Chance(1, 3) {
+				// keys in another case: the case-insensitive fallback of the struct decoder
+				b = swapKeyCase(b, t.Bool())
+			}
+			if op.kind == opJSONParse && t.Chance(1, 3) {
+				op.pflags = json.DontMatchCaseInsensitiveStructFields
+			}
 			op.input = b
 		case opJSONMarshalAnyMap:
 			op.vals = map[string]any{}
@@ -424,7 +436,63 @@ func c09MakeOp(t *tape.Tape, ty *simType, pool []*simType) *c09Op {
 			op.input = b
 		}
 	}
+	// a corrupted input: the call fails (or decodes something else) — alone and
+	// in company alike — and must leave nothing behind that changes what the
+	// other calls return
+	if op.input != nil && len(op.input) > 1 && op.kind != opProtoMarshalTo && t.Chance(1, 5) {
+		in := append([]byte(nil), op.input...)
+		switch t.Intn(4) {
+		case 0:
+			in = in[:1+t.Intn(len(in)-1)]
+		case 1:
+			in[t.Intn(len(in))] ^= byte(1 << uint(t.Intn(8)))
+		case 2:
+			i := t.Intn(len(in))
+			in[i] = (in[i] &^ 7) | byte(t.Intn(8))
+		default:
+			in[t.Intn(len(in))] = 0xff
+		}
+		op.input, op.corrupt = in, true
+	}
 	return op
+}
+
+// swapKeyCase changes the case of the ASCII letters of every object key.
+func swapKeyCase(doc []byte, upper bool) []byte {
+	out := append([]byte(nil), doc...)
+	in := false
+	start := -1
+	for i := 0; i < len(out); i++ {
+		switch {
+		case in && out[i] == '\\':
+			i++
+		case out[i] == '"':
+			if !in {
+				start = i
+			} else {
+				// a key is a string followed by ':'
+				j := i + 1
+				for j < len(out) && (out[j] == ' ' || out[j] == '\n') {
+					j++
+				}
+				if j < len(out) && out[j] == ':' {
+					for k := start + 1; k < i; k++ {
+						c := out[k]
+						if out[k-1] == '\\' {
+							continue
+						}
+						if upper && c >= 'a' && c <= 'z' {
+							out[k] = c - 32
+						} else if !upper && c >= 'A' && c <= 'Z' {
+							out[k] = c + 32
+						}
+					}
+				}
+			}
+			in = !in
+		}
+	}
+	return out
 }
 
 func protoSizeSafe(v any) (n int) {
@@ -498,6 +566,9 @@ func runC09(r *core.Run) {
 				ty = hot
 			}
 			op := c09MakeOp(t, ty, pool)
+			if op.corrupt {
+				r.Probe("corrupted-input-ops")
+			}
 			tasks[i] = append(tasks[i], op)
 			nops++
 			if usedBy[ty] == nil {
